@@ -2,7 +2,7 @@
    (b, f) is decided by shift_count on  prefix_b ++ [error] ++ rest : the
    `error' and the next recovery_match tokens (or all remaining ones, up to
    acceptance) can be shifted. *)
-From YV Require Import Prelude EarleySpec Recognizer Viable.
+From YV Require Import Prelude EarleySpec Recognizer Viable SimpleRecovery.
 
 Theorem C08_shiftable_decider : forall g axiom w k acc, shift_count g axiom w = Some (k, acc) ->
   (forall j, j <= k -> j <= length w -> count_nonempty (earley_sets g axiom w) > 0 -> exists i, Item g axiom (firstn j w) i) /\
@@ -17,3 +17,25 @@ Theorem C08_shiftable_means_viable : forall g axiom, productive g -> forall p,
   (exists i, Item g axiom p i) <-> (exists s, sentence g axiom (p ++ s)).
 Proof. exact viable_prefix_iff. Qed.
 Print Assumptions C08_shiftable_means_viable.
+
+(* The yardstick itself is computed in Coq: [min_simple_cost] is the least cost (e - b) + f over all
+   positions b <= e and skips f for which [simple_ok] holds (`error' and the next recovery_match tokens -
+   or all remaining ones up to acceptance - can be shifted after the first b tokens). *)
+Theorem C08_least_simple_recovery_cost : forall g axiom err toks e m r,
+  min_simple_cost g axiom err toks e m = Some r ->
+  (forall b f, b <= e -> f <= length toks - e -> simple_ok g axiom err toks e m b f = Some true ->
+     exists c, r = Some c /\ c <= (e - b) + f) /\
+  (forall c, r = Some c -> exists b f, b <= e /\ f <= length toks - e /\
+     simple_ok g axiom err toks e m b f = Some true /\ (e - b) + f = c).
+Proof. exact min_simple_cost_spec. Qed.
+Print Assumptions C08_least_simple_recovery_cost.
+
+Theorem C08_simple_recovery_meaning : forall g axiom err toks e m b f,
+  simple_ok g axiom err toks e m b f = Some true ->
+  count_nonempty (earley_sets g axiom (repaired err toks e b f)) > 0 ->
+  skipn (e + f) toks <> [] /\
+  (m <= length (skipn (e + f) toks) -> b <= length toks ->
+     forall j, j <= b + 1 + m -> exists i, Item g axiom (firstn j (repaired err toks e b f)) i) /\
+  (length (skipn (e + f) toks) < m -> sentence g axiom (repaired err toks e b f)).
+Proof. exact simple_ok_spec. Qed.
+Print Assumptions C08_simple_recovery_meaning.
